@@ -418,7 +418,10 @@ def replay_file(path, quiet=False):
 
 def replay_in_fresh_process(path):
     env = dict(os.environ)
-    env['PYTHONHASHSEED'] = '4242'
+    # a fresh interpreter under the pinned hash seed (run_check.py pins PYTHONHASHSEED=0 for every check): results of
+    # beanquery do not depend on the seed, but under line pre-emption the number of Python lines a piece of code
+    # executes can (a loop over a set that stops at the first match), and the recorded decisions are step numbers
+    env['PYTHONHASHSEED'] = '0'
     p = subprocess.run([sys.executable, os.path.join(core.VERIF_DIR, 'run_check.py'), '--replay', path, '--quiet'],
                        env=env, capture_output=True, text=True, timeout=300)
     return p.returncode == 1, p.stdout + p.stderr
